@@ -52,7 +52,7 @@ Prediction ==
       accG == IF ~sp.hasgrp THEN accC
               ELSE AccMaps(Ctx([Clean EXCEPT !.greedy = TRUE, !.groupEnvSat = TRUE]), sp.ast, argv)
   IN [acc |-> accC,
-      uncl |-> (ShapeUnclaimed(argv) \/ accS # accC \/ accL # accC),
+      uncl |-> (ShapeUnclaimed(ProgOf(si), argv) \/ accS # accC \/ accL # accC),
       accG |-> accG]
 
 Eval == /\ phase = "case"
